@@ -378,6 +378,18 @@ func (eng *Engine) registerIntrinsics() {
 		return mkBool(math.Signbit(args[0].(Float).F))
 	}
 
+	in["crypto/rand.Read"] = func(e *Exec, fr *frame, fn *ssa.Function, args []Value) Value {
+		// contract: arbitrary bytes. File names are built from them, so they are concrete here
+		// (a deterministic sequence per path); a collision with an existing name is not modelled.
+		b := args[0].(Slice)
+		ctr, _ := e.local["randctr"].(int)
+		for i := range b.v {
+			ctr++
+			b.v[i] = byteConsts[byte(ctr*73+11)]
+		}
+		e.local["randctr"] = ctr
+		return Tuple{mkConst(64, uint64(len(b.v))), Iface{}}
+	}
 	in["net.ParseIP"] = func(e *Exec, fr *frame, fn *ssa.Function, args []Value) Value {
 		ip := net.ParseIP(strArg(e, fr, args[0]))
 		if ip == nil {
